@@ -62,3 +62,19 @@ def fill(C, PENDING):
       "in every calendar for instants chosen around local midnight and range ends, offsets to +-18h and seeded zones, and compared with local = "
       "instant + offset in integers.",
       "Trusts the C01 day mapping and the zone's own get_utc_offset (judged by C04/C06).", "§3 C11")
+
+    C("C04", "exploration", "runtime monitoring: interval log recorded at the API boundary + offline integer partition checker + point probes",
+      "Every provider zone is walked forward through get_zone_interval (complete to the end of time in thorough; to 2100 plus far windows and the final "
+      "years in quick); the recorded log is checked offline for containment, abutment, maximality, unbounded ends, wall = standard + savings and offset "
+      "bounds, and hundreds of thousands of point probes (transition edges, 32-day cache-period edges, ends of time, seeded) must agree with the log.",
+      "Pure integer checker over what the public API returned; says nothing about whether the intervals are the right ones (that is C06).", "§3 C04")
+    C("C05", "exploration", "runtime monitoring: local-mapping oracle computed from the recorded interval log (Appendix A.3)",
+      "map_local, single/first/last, at_strictly, at_leniently, resolve_local, at_start_of_day and the ZonedDateTime(local, zone, offset) constructor are "
+      "executed for local values displaced by +-1 ns..+-1 day around the logged transitions of every zone and compared with the exact 0/1/2-instant set "
+      "derived from the log; sampled (all historical transitions in thorough).",
+      "Trusts the walked interval log (C04/C06 judge it) and integer arithmetic.", "§3 C05")
+    C("C06", "exploration", "runtime monitoring: differential against an independent reader of the database bytes and a datetime-based rule evaluator",
+      "Both real NZD files are decoded by a separately written reader; every zone served by the provider is walked and compared interval by interval "
+      "(complete to year 9999 in thorough), point probes in random order are judged against the reference, and ids, version, alias maps, fixed "
+      "UTC+-hh[:mm[:ss]] ids and validate() are checked.",
+      "The NZD format and yearly-rule semantics as understood by the independent reader/evaluator (Appendix A.1/A.2).", "§3 C06")
